@@ -143,12 +143,15 @@ class Sweeper:
         self.py = PyProgram()
         self.ia = IsaAbs(self.py)
 
-    def run_case(self, pre: int | None, opcode: int, selector: int | None, stages: tuple = ("encode", "render", "analyze", "lift", "trunc")) -> Case:
+    def run_case(self, pre: int | None, opcode: int, selector: int | None, stages: tuple = ("encode", "render", "analyze", "lift", "trunc"), data: list | None = None, addr: int | None = None) -> Case:
+        """`data`: explicit instruction bytes after the prefix (bit-vectors over any symbols); default is opcode + fresh symbols in0.."""
         c = Case(pre, opcode, selector)
         ia = self.ia
-        data = [BitVec.const(opcode)] + sym_bytes(MAXLEN - 1)
-        if selector is not None:
-            data[1] = BitVec.const(selector)
+        ADDR = addr if addr is not None else globals()['ADDR']
+        if data is None:
+            data = [BitVec.const(opcode)] + sym_bytes(MAXLEN - 1)
+            if selector is not None:
+                data[1] = BitVec.const(selector)
         try:
             instr, dec = ia.decode_one(data, ADDR + (1 if pre is not None else 0))
         except Raised as e:
